@@ -432,7 +432,7 @@ func (rw *fileRW) renderSelect(s *ast.SelectStmt, label string) string {
 	if len(cases) > 0 {
 		sep = ", "
 	}
-	return fmt.Sprintf("{\n%s\n%s, %s := __vsched.Select(%v%s%s)\n_ = %s\n%sswitch %s {\n%s\n}\n}",
+	return fmt.Sprintf("{\n%s\n%s, %s := __vsched.Select(%v%s%s)\n_ = %s\n%sswitch %s {\n%s\ndefault:\npanic(\"vsched: select returned an impossible case\")\n}\n}",
 		strings.Join(pre, "\n"), iv, rv, hasDefault, sep, strings.Join(cases, ", "), rv, lbl, iv, strings.Join(arms, "\n"))
 }
 
@@ -492,7 +492,7 @@ func main() {
 			rel, _ := filepath.Rel(cfg.Repo, fn)
 			rw := &fileRW{cfg: &cfg, fset: fset, src: src, file: f, tf: fset.File(f.Pos()), info: p.TypesInfo, uses: map[string]bool{}, rendering: map[token.Pos]token.Pos{}, pkgdir: filepath.Dir(rel)}
 			for _, suf := range cfg.MapRange {
-				if strings.HasSuffix(fn, suf) {
+				if strings.HasSuffix(fn, suf) || strings.Contains(fn, suf) {
 					rw.mapRange = true
 				}
 			}
